@@ -275,6 +275,88 @@ fn interleaved(v: &Verdicts, runs: usize, seed0: u64) -> (u64, BTreeSet<u64>, BT
     (total.into_inner(), distinct.into_inner().unwrap(), nontrivial.into_inner().unwrap())
 }
 
+// ---------------------------------------------------------------- across a snapshot and a restart
+/// Sessions that were open when a snapshot was written are gone after a restart: the count starts from the sessions that
+/// are really there. Real files, start-up sequence of main.rs.
+fn restart_part(v: &Verdicts) -> u64 {
+    use crate::common::node::NodeOpts;
+    let mut cases = 0u64;
+    for open_at_snapshot in [0usize, 1, 3] {
+        for reclaim in [false, true] {
+            for clean_stop in [false, true] {
+                cases += 1;
+                let dir = fresh_dir("c17-restart");
+                let start = |dir: &str| -> Node {
+                    let mut o = NodeOpts::simple(dir);
+                    o.load_from_disk = true;
+                    let n = Node::start(o);
+                    n.set_role(nundb::bo::ClusterRole::Primary);
+                    n
+                };
+                let mut node = start(&dir);
+                let dbs = node.dbs.clone();
+                let mut adm = Session::new();
+                adm.call(&dbs, "auth admin pwd");
+                adm.call(&dbs, "create-db rd tok");
+                let mut open: Vec<Session> = vec![];
+                for _ in 0..open_at_snapshot {
+                    let mut s = Session::new();
+                    s.call(&dbs, "use-db rd tok");
+                    s.call(&dbs, "set k v");
+                    open.push(s);
+                }
+                adm.call(&dbs, &format!("snapshot {} rd", reclaim));
+                nundb::disk_ops::verif_declutter(&dbs);
+                if clean_stop {
+                    for s in open.drain(..) {
+                        s.disconnect(&dbs);
+                    }
+                    node.safe_shutdown();
+                } else {
+                    for s in open.drain(..) {
+                        std::mem::forget(s); // the process dies with its sessions
+                    }
+                }
+                drop(node);
+                if crate::c06::load_probe(&dir).is_err() {
+                    continue; // C06 / C11 report start-up failures
+                }
+                let node2 = start(&dir);
+                let dbs2 = node2.dbs.clone();
+                let read = |dbs: &Arc<Databases>| -> (usize, String) {
+                    let map = dbs.map.read().unwrap();
+                    match map.get("rd") {
+                        Some(d) => (d.connections_count(), d.map.read().unwrap().get("$connections").map(|v| v.value.clone()).unwrap_or("0".into())),
+                        None => (usize::MAX, "database missing".into()),
+                    }
+                };
+                if read(&dbs2).0 == usize::MAX {
+                    continue; // a database that was not restored is C06's business
+                }
+                let mut trace = vec![];
+                let mut s1 = Session::new();
+                s1.call(&dbs2, "use-db rd tok");
+                trace.push(("one session selected", read(&dbs2)));
+                let mut s2 = Session::new();
+                s2.call(&dbs2, "use-db rd tok");
+                trace.push(("two sessions selected", read(&dbs2)));
+                s1.disconnect(&dbs2);
+                trace.push(("one left", read(&dbs2)));
+                s2.disconnect(&dbs2);
+                trace.push(("both left", read(&dbs2)));
+                let want = [1usize, 2, 1, 0];
+                if let Some(i) = (0..4).find(|i| trace[*i].1 .0 != want[*i] || trace[*i].1 .1 != want[*i].to_string()) {
+                    v.report(json!({"check": "connections", "mode": "restart", "problem": "count-differs-from-open-sessions", "sessions_open_when_the_snapshot_was_written": open_at_snapshot > 0}),
+                        json!({"sessions_open_at_snapshot": open_at_snapshot, "snapshot_reclaims": reclaim, "clean_stop": clean_stop, "first_wrong_step": trace[i].0, "observed_counter_and_key": trace.iter().map(|t| json!([t.0, t.1 .0, t.1 .1])).collect::<Vec<_>>(), "expected": want}));
+                }
+                drop(node2);
+                let _ = std::fs::remove_dir_all(&dir);
+            }
+        }
+    }
+    cases
+}
+
 // ---------------------------------------------------------------- real transports
 fn wait_counts(dbs: &Arc<Databases>, want: &BTreeMap<String, usize>) -> BTreeMap<String, (usize, String)> {
     let deadline = Instant::now() + Duration::from_secs(10);
@@ -516,6 +598,7 @@ pub fn run(tier: &str) -> i32 {
     let (il_runs, il_distinct, il_nontrivial) = interleaved(&v, if thorough { 40_000 } else { 3_000 }, seed());
     sched::clear_callback();
     take_panics();
+    let restart_cases = restart_part(&v);
     let (tr_sessions, tr_shapes) = transports(&v, if thorough { 6_000 } else { 300 }, &mut rng);
     let s = st.into_inner().unwrap();
     ev.evaluations = s.sequences + il_runs + tr_sessions;
@@ -527,6 +610,7 @@ pub fn run(tier: &str) -> i32 {
     ev.set("watcher_notifications_checked", json!(s.notifications_checked));
     ev.set("interleaved_distinct_schedules", json!(il_distinct.len()));
     ev.set("interleaved_schedules_sharing_a_database", json!(il_nontrivial.len()));
+    ev.set("snapshot_with_open_sessions_then_restart_cases", json!(restart_cases));
     ev.set("transport_sessions", json!(tr_sessions));
     ev.set("tcp_sessions_ended_by_a_connection_reset", json!(TCP_RESETS.load(std::sync::atomic::Ordering::SeqCst)));
     ev.set("transport_burst_shapes", json!(tr_shapes.len()));
